@@ -16,6 +16,8 @@ DOC = {
         'C20.R1': 'every arm of execute: maybe_lock(<path to be affected>, should_lock) dominates every mutating call and its result is propagated',
         'C20.R2': 'maybe_lock maps only ErrorKind::Unsupported to Ok(None); lock=false is the only other Ok(None)',
         'C20.R3': 'FileLock::new: write-open, then fcntl(F_SETLK, F_WRLCK) over the whole file (l_start = l_len = 0); every failure returns Err',
+        'C20.R6': 'taking the lock needs no permission that the operation itself does not need (removing / replacing a name needs write access to the directory, not to the file): when the write-open is denied, FileLock::new falls back to a read-only open and a lock probe instead of failing - otherwise read-only duplicates are listed by --dry-run (and removed by its script) but skipped with an error by the real run',
+        'C20.R5': 'FileLock::new never opens through a symbolic link (lstat test on the false edge before the open, or O_NOFOLLOW): the commands act on the link itself, so the lock of the file it points to is irrelevant and the open fails once that file is gone - a link reported with -S whose target is dropped first was left dangling by the real run while the dry run removes it',
         'C20.R4': 'run_script passes !no_lock as should_lock to execute',
     },
     'not_decided': 'semantics of fcntl locks in the kernel; that the lock is still held while the operation runs (it is released right after the attempt - the property only asks that a foreign lock makes the attempt fail)',
@@ -57,6 +59,8 @@ def run(ctx):
     r2(ctx, lib)
     r3(ctx, lib)
     r4(ctx, lib)
+    r5(ctx, lib)
+    r6(ctx, lib)
 
 
 def r1(ctx, lib, cg, ex):
@@ -232,39 +236,55 @@ def r3(ctx, lib):
     ctx.check(1 in psl.params, rule, key + '|open-path', o.where(), 'opened path derives from the parameter', 'opened path does not derive from the parameter')
     fate = classify_result(b, o)
     ctx.check('PROPAGATED' in fate.kinds, rule, key + '|open-err', o.where(), 'open failure propagated with ?', 'open failure not propagated: %s' % fate)
+    from ..analysis import result_tests, reachable_state
     locks = b.calls(r'lock::FileLock::fcntl_lock$')
+    probes = b.calls(r'lock::FileLock::fcntl_test_lock$')
     if ctx.floor(rule, 'fcntl_lock in FileLock::new', len(locks), 1, b.where()):
         l = locks[0]
-        swo = switch_on_result_of(b, o)
-        dom_ok = swo is not None and any(b.dominates(x, l.bb) for x in swo['ok'])
-        ctx.check(dom_ok, rule, key + '|order', l.where(), 'fcntl_lock is dominated by the successful open', 'fcntl_lock not dominated by the successful open')
-        sw = switch_on_result_of(b, l)
-        good = False
-        if sw is not None and sw['err']:
-            rv = set()
-            for e in sw['err']:
-                rv |= return_variants_from(b, e)
-            good = rv and 'Ok' not in rv
-        # every FileLock aggregate (the success value) must be dominated by the lock's success edge
+        ot = result_tests(b, o)
+        dom_ok = bool(ot) and l.bb not in reachable_state(b, 0, ot, 'err')
+        ctx.check(dom_ok, rule, key + '|order', l.where(), 'fcntl_lock is reached only after the write-open succeeded', 'fcntl_lock can be reached although the open failed')
+        # every FileLock (the success value) is built only after a lock call succeeded
+        lt = {}
+        for c_ in locks + probes:
+            lt.update(result_tests(b, c_))
         aggs = [bi for bi, blk in enumerate(b.blocks) if not blk['cleanup'] for s in blk['stmts']
                 if s['rv']['k'] == 'agg' and s['rv'].get('adt') == 'lock::FileLock']
-        if sw is not None:
-            for a in aggs:
-                if not any(b.dominates(x, a) for x in sw['ok']) and sw['via'] == 'try':
-                    good = False
-                if sw['via'] == 'match' and any(a in b.reachable(e) for e in sw['err']):
-                    good = False
-        ctx.check(bool(good), rule, key + '|lock-err', l.where(), 'lock failure returns Err; FileLock is built only after the lock succeeded',
-                  'lock failure does not return Err on every path')
-    fl = ctx.need_body(rule, 'lock::FileLock::fcntl_lock')
-    if fl is not None:
+        lock_blocks = {c_.bb for c_ in locks + probes}
+        # (a) no FileLock without passing a lock call, (b) none when the lock call it passed failed
+        unguarded = [a for a in aggs if a in b.reachable(0, avoid=lock_blocks)]
+        after_fail = [a for a in aggs if a in reachable_state(b, 0, lt, 'err') and not any(a in reachable_state(b, c_.ret, lt, 'ok') and c_.bb in b.dominators()[a] for c_ in locks + probes)]
+        ctx.check(bool(aggs) and bool(lt) and not unguarded and not after_fail, rule, key + '|lock-err', l.where(), 'lock failure returns Err; FileLock is built only after the lock (or the lock probe) succeeded',
+                  'a FileLock is returned %s' % ('without any lock call on the path' if unguarded else 'on a path where the lock call failed'))
+    if probes:
+        tb = lib.body('lock::FileLock::fcntl_test_lock')
+        if tb is not None:
+            from ..analysis import comparisons, branch_of
+            good = False
+            for cmp in comparisons(tb):
+                sa, sb_ = backslice(tb, [cmp.a]), backslice(tb, [cmp.b])
+                lt_side = 'l_type' in sa.field_names() or 'l_type' in sb_.field_names()
+                unl = any(i.endswith('F_UNLCK') for i in sa.items | sb_.items) or any('F_UNLCK' in (v or '') for v in slice_const_values(lib, sa) + slice_const_values(lib, sb_))
+                br = branch_of(tb, cmp)
+                if lt_side and unl and cmp.op in ('==', '!=') and br:
+                    sw_, tt_, ft_ = br
+                    eq_side = tt_ if cmp.op == '==' else ft_
+                    ne_side = ft_ if cmp.op == '==' else tt_
+                    oks = [bi for bi, blk in enumerate(tb.blocks) for s_ in blk['stmts'] if s_['p'][0] == 0 and s_['rv']['k'] == 'agg' and s_['rv'].get('variant') == 'Ok']
+                    good = bool(oks) and all(tb.dominates(eq_side, x) for x in oks) and not any(x in tb.reachable(ne_side) for x in oks)
+            ctx.check(good, rule, 'lock::FileLock::fcntl_test_lock|unlocked-only', tb.where(), 'the probe succeeds only when F_GETLK reports F_UNLCK (no conflicting lock)',
+                      'the lock probe can return Ok although F_GETLK reported a conflicting lock')
+    for FN, CMD in (('lock::FileLock::fcntl_lock', 'F_SETLK'),) + ((('lock::FileLock::fcntl_test_lock', 'F_GETLK'),) if probes else ()):
+        fl = ctx.need_body(rule, FN)
+        if fl is None:
+            continue
         fc = fl.calls(r'^nix::fcntl::fcntl$')
         if ctx.floor(rule, 'fcntl call', len(fc), 1, fl.where()):
             c = fc[0]
             sl = backslice(fl, [c.args[1]])
-            setlk = any(s['rv'].get('variant') == 'F_SETLK' for blk in fl.blocks for s in blk['stmts'] if s['rv']['k'] == 'agg')
+            setlk = any(s['rv'].get('variant') == CMD for blk in fl.blocks for s in blk['stmts'] if s['rv']['k'] == 'agg')
             setlkw = any(s['rv'].get('variant') in ('F_SETLKW', 'F_OFD_SETLKW') for blk in fl.blocks for s in blk['stmts'] if s['rv']['k'] == 'agg')
-            ctx.check(setlk and not setlkw, rule, 'lock::FileLock::fcntl_lock|cmd', c.where(), 'non-blocking F_SETLK', 'fcntl command is not the non-blocking F_SETLK')
+            ctx.check(setlk and not setlkw, rule, FN + '|cmd', c.where(), 'non-blocking %s' % CMD, 'fcntl command is not the non-blocking %s' % CMD)
             # l_type assigned from F_WRLCK
             wr = False
             for blk in fl.blocks:
@@ -274,7 +294,7 @@ def r3(ctx, lib):
                         wr = any('F_WRLCK' in (v or '') or v in ('const 1_i32', 'const 1_i16') for v in vs) or wr
                         items = backslice(fl, rvalue_ops(s)).items
                         wr = wr or any(i.endswith('F_WRLCK') for i in items)
-            ctx.check(wr, rule, 'lock::FileLock::fcntl_lock|type', c.where(), 'l_type = F_WRLCK', 'l_type is not assigned from F_WRLCK')
+            ctx.check(wr, rule, FN + '|type', c.where(), 'l_type = F_WRLCK', 'l_type is not assigned from F_WRLCK')
             # the probed region is the whole file: l_start / l_len stay 0 (zeroed struct), l_whence = SEEK_SET
             region_bad = []
             for blk in fl.blocks:
@@ -291,11 +311,11 @@ def r3(ctx, lib):
             nf = lib.body('lock::FileLock::new_flock')
             if nf is not None:
                 zeroed = zeroed and any(cc.matches(r'std::mem::zeroed$|MaybeUninit.*zeroed') for cc in nf.calls())
-            ctx.check(not region_bad and zeroed, rule, 'lock::FileLock::fcntl_lock|whole-file-region', c.where(),
+            ctx.check(not region_bad and zeroed, rule, FN + '|whole-file-region', c.where(),
                       'flock is zero-initialised and l_start/l_len stay 0: the probe covers the whole file, including bytes beyond EOF',
                       'the probed byte range is narrowed (%s): a foreign lock outside it is not seen' % (region_bad or 'flock not from new_flock/zeroed'))
             fate = classify_result(fl, c)
-            ctx.check(bool(fate.kinds & {'PASSED', 'RETURNED', 'PROPAGATED'}) and 'DISCARDED' not in fate.kinds, rule, 'lock::FileLock::fcntl_lock|result', c.where(),
+            ctx.check(bool(fate.kinds & {'PASSED', 'RETURNED', 'PROPAGATED'}) and 'DISCARDED' not in fate.kinds, rule, FN + '|result', c.where(),
                       'fcntl result converted and returned', 'fcntl result not returned: %s' % fate)
 
 
@@ -365,3 +385,47 @@ def r4(ctx, lib):
         good = 'no_lock' in sl.field_names() and nots % 2 == 1
         ctx.check(good, rule, key, c.where(), 'should_lock = !config.no_lock',
                   'should_lock is not the negated no_lock option (%s, negations=%d)' % (sl.describe(ob), nots))
+
+
+def r5(ctx, lib, rule='C20.R5'):
+    from ..analysis import backslice, switch_targets_bool
+    b = ctx.need_body(rule, 'lock::FileLock::new')
+    if b is None:
+        return
+    op = b.calls(r'OpenOptions::open$')
+    if not ctx.floor(rule, 'OpenOptions::open in FileLock::new', len(op), 1, b.where()):
+        return
+    ok = False
+    for c in b.calls(r'FileType::is_symlink$'):
+        if not backslice(b, [c.args[0]]).has_call(r'symlink_metadata$'):
+            continue
+        for (bbx, idx, what) in b.operand_uses(c.dest[0]):
+            if what[0] == 'switch':
+                tt, ft = switch_targets_bool(what[1])
+                if ft is not None and b.dominates(ft, op[0].bb) and not b.dominates(tt, op[0].bb):
+                    ok = True
+    nofollow = any('NOFOLLOW' in str(i) for i in backslice(b, [op[0].args[0]]).items) or bool(b.calls(r'OpenOptionsExt>::custom_flags$'))
+    ctx.check(ok or nofollow, rule, b.path + '|no-follow', op[0].where(), 'the file is opened only when the path is not a symbolic link',
+              'FileLock::new opens the path with a following open(): for a symbolic link (a legal group member with -S) it locks the target instead of the link, and fails with ENOENT when the target '
+              'has just been removed by another command of the same group, so the link is left behind dangling and the run differs from its own --dry-run script')
+
+
+def r6(ctx, lib, rule='C20.R6'):
+    from ..analysis import result_tests, reachable_state
+    b = ctx.need_body(rule, 'lock::FileLock::new')
+    if b is None:
+        return
+    wo = b.calls(r'^std::fs::OpenOptions::open$')
+    if not wo:
+        ctx.missing(rule, 'write-open in FileLock::new', b.where())
+        return
+    tests = result_tests(b, wo[0])
+    err_region = reachable_state(b, 0, tests, 'err') - reachable_state(b, 0, tests, 'ok') if tests else set()
+    ro = [c for c in b.calls(r'^std::fs::File::open$') if c.bb in err_region]
+    aggs = [bi for bi, blk in enumerate(b.blocks) if not blk['cleanup'] for s in blk['stmts'] if s['rv']['k'] == 'agg' and s['rv'].get('adt') == 'lock::FileLock']
+    ok = bool(ro) and any(a in b.reachable(ro[0].bb) for a in aggs)
+    denied = any(i.endswith('PermissionDenied') for blk in b.blocks for s in blk['stmts'] for i in [str(s['rv'].get('variant') or '')]) or \
+        any('PermissionDenied' in str(x) for c in b.calls() for x in [c.path]) or any('PermissionDenied' in (i or '') for i in backslice(b, [{'c': [0, []]}]).items)
+    ctx.check(ok, rule, b.path + '|no-extra-permission', (ro[0].where() if ro else wo[0].where()), 'a denied write-open falls back to a read-only open + lock probe',
+              'FileLock::new fails when the file cannot be opened for writing, although rm / mv / ln on it only need write access to the directory: for a non-root user a 0444 duplicate is '
+              'announced by --dry-run ("Would process 1 files", and `bash script.sh` removes it) while the real run reports "Failed to open file .. for write: Permission denied" and processes 0 files')
